@@ -175,3 +175,12 @@ chk("C25", MC,
     "pairwise distinct, never equal an address at which another terminal answers; pre-assigned addresses are kept. This check is "
     "mostly exhaustive decision exploration (small symbolic part) -- stated in the evidence.",
     PY_NOTE, "exhaustive exploration of adversarial random draws and bus configurations with the symbolic engine", "B:8/C25")
+
+chk("C24", MC,
+    "The real SyncGroup / FastSyncGroup (with register_sync_group) / ProcessSyncGroup (wait_for_process) start and run on the "
+    "deterministic event loop with virtual time, simulated terminals, bus, bpf map calls and subprocess; the task is cancelled "
+    "after N event-loop steps with N an engine decision covering every step 0..60 (thorough 0..140) from start-up through the "
+    "first cycles. Obligations: the task ends cancelled (not another error), every terminal asked to go OPERATIONAL is later asked "
+    "back to SAFE-OPERATIONAL, all FMMUs are freed, the kernel program is unregistered (fast), the subprocess is told to stop and "
+    "waited for (process-based). Mostly exhaustive exploration of the cancel point (small symbolic part).",
+    PY_NOTE, "exhaustive exploration of the cancellation point over the real coroutines on a deterministic event loop", "B:8/C24")
